@@ -117,8 +117,8 @@ class ConvergenceMonitor(Monitor):
 
     def check(self, model, w, ghost):
         self.counter += 1
-        if self.every > 1 and (self.counter % self.every):
-            return None
+        if self.every > 1 and int.from_bytes(w.key()[:4], 'big') % self.every:
+            return None   # deterministic residue class of the state key, independent of exploration order
         for g in self.groups(model, w):
             v = self.closing(model, w, g)
             if v:
